@@ -48,9 +48,11 @@ var c15Docs = []c15Doc{
 	{"c:\n  d: 1\n", []string{"--app.config=c.d=1"}},
 	{"c:\n  e: 2\n", []string{"--app.config=c.e=2"}},
 	{"a: 3\nc:\n  d: 2\n  e: 3\n", []string{"--app.config=a=3", "--app.config=c.d=2", "--app.config=c.e=3"}},
+	// keys spelled like variables of the process environment (PATH, HOME)
+	{"path: p1\nhome:\n  dir: h1\n", []string{"--app.config=path=p1", "--app.config=home.dir=h1"}},
 }
 
-var c15Paths = []string{"a", "b", "c.d", "c.e"}
+var c15Paths = []string{"a", "b", "c.d", "c.e", "path", "home.dir"}
 
 type c15Step struct {
 	Way  string `json:"way"`  // set add file direct
